@@ -121,3 +121,48 @@ M.contract('bridgepoint.ooaofooa._get_related_attributes@pairing', [('r_rgo', IN
            modifies=[], locals={'l1': KEYS, 'l2': KEYS},
            loops={0: Loop(inv={'paired-so-far': 'paired(l1, l2, seq_take(_seq, _i))',
                                'walks-the-reference-rows': 'any(_seq == nav_all(r_rto, "O_RTIDA[R110].O_REF[R111]", f) for f in ints())'})})
+
+# ---- the type of an attribute: a referential attribute takes the type of the attribute it refers to, transitively (partial correctness:
+# termination on an acyclic O_REF chain is not proved)
+M.spec('''
+def base_type(o_attr):
+    return (base_type(first_of(o_attr, "O_RATTR[R106].O_BATTR[R113].O_ATTR[R106]"))
+            if first_of(o_attr, "O_RATTR[R106].O_BATTR[R113].O_ATTR[R106]") is not None else first_of(o_attr, "S_DT[R114]"))
+''', sorts={'base_type': ([INST], INST, [])})
+M.contract('bridgepoint.ooaofooa.get_attribute_type', [('o_attr', INST)], returns=INST,
+           ensures={'type-of-the-attribute-referred-to-transitively': 'result is base_type(o_attr)'}, modifies=[])
+
+# ---- scoping of packageable elements (used to decide what belongs to a component and what is global)
+M.uninterpreted('kind_of', [INST], STR)
+M.assume('A-NAV-KIND: a navigation ends in None or an instance of the class named by its last step; type(x).__name__ of a model instance is that class name (xtuml.meta: the class object is created with the key letters as its name)')
+M.spec('''
+def pe_of(x):
+    return x if kind_of(x) == 'PE_PE' else first_of(x, "PE_PE[R8001]")
+
+def global_pe(pe):
+    return (False if first_of(pe, "C_C[R8003]") is not None
+            else (True if first_of(pe, "EP_PKG[R8000].PE_PE[R8001]") is None else global_pe(first_of(pe, "EP_PKG[R8000].PE_PE[R8001]"))))
+
+def defining_component(pe):
+    return (defining_component(pe_of(first_of(pe, "EP_PKG[R8000]"))) if first_of(pe, "EP_PKG[R8000]") is not None else first_of(pe, "C_C[R8003]"))
+''', sorts={'global_pe': ([INST], BOOL, []), 'defining_component': ([INST], INST, [])})
+M.contract('bridgepoint.ooaofooa.is_global', [('pe_pe', INST)], returns=BOOL,
+           requires={'element': 'pe_pe is not None'},
+           ensures={'global-iff-no-enclosing-component-up-the-package-chain': 'result == global_pe(pe_of(pe_pe))'}, modifies=[])
+M.contract('bridgepoint.ooaofooa.get_defining_component', [('pe_pe', INST)], returns=INST,
+           ensures={'component-at-the-top-of-the-package-chain': 'result is (None if pe_pe is None else defining_component(pe_of(pe_pe)))'}, modifies=[])
+
+M.spec('''
+def refs_of(pkg):
+    return nav_all(pkg, "EP_PKG[R1402,'is referenced by']", 0)
+
+def contained(x, root):
+    return (False if x is None else
+            (root is first_of(pe_of(x), "EP_PKG[R8000]") or root is first_of(pe_of(x), "C_C[R8003]")
+             or contained(first_of(pe_of(x), "EP_PKG[R8000]"), root) or contained(first_of(pe_of(x), "C_C[R8003]"), root)
+             or any(contained(refs_of(first_of(pe_of(x), "EP_PKG[R8000]"))[j], root) for j in range(0, len(refs_of(first_of(pe_of(x), "EP_PKG[R8000]")))))))
+''', sorts={'contained': ([INST, INST], BOOL, [])})
+M.contract('bridgepoint.ooaofooa.is_contained_in', [('pe_pe', INST), ('root', INST)], returns=BOOL,
+           ensures={'reachable-upwards-through-packages-components-and-package-references': 'result == contained(pe_pe, root)'}, modifies=[],
+           loops={0: Loop(inv={'walks-the-referencing-packages': '_seq == refs_of(first_of(pe_of(old(pe_pe)), "EP_PKG[R8000]"))',
+                               'none-so-far-contains-it': 'all(not contained(_seq[j], root) for j in range(0, _i))'})})
